@@ -44,6 +44,18 @@ FAMILIES = {
     "nested-if-newline": lambda d: "if a then b else\n" * d + "x\n",
     "nested-list-newline": lambda d: "[\n" * d + "1" + "\n]" * d + "\n",
     "nested-set-newline": lambda d: "{\n a =\n" * d + "1" + ";\n}" * d + "\n",
+    # the other child positions of the constructs above
+    "nested-if-cond": lambda d: "if " * d + "a" + " then b else c" * d + "\n",
+    "nested-if-then": lambda d: "if a then " * d + "x" + " else c" * d + "\n",
+    "nested-with-env": lambda d: "with (" * d + "a" + "); x" * d + "\n",
+    "nested-assert-cond": lambda d: "assert (" * d + "a" + "); x" * d + "\n",
+    "nested-let-value": lambda d: "let a = " * d + "1" + "; in a" * d + "\n",
+    "apply-chain": lambda d: "f" + " x" * d + "\n",
+    "nested-interpolation": lambda d: '"${' * d + "a" + '}"' * d + "\n",
+    "nested-select-base": lambda d: "(" * d + "a" + ".b)" * d + "\n",
+    "nested-binop-right": lambda d: "a + (" * d + "a" + ")" * d + "\n",
+    "nested-has-attr": lambda d: "(" * d + "a" + " ? b)" * d + "\n",
+    "nested-list-second": lambda d: "[ 1 " * d + "2" + " ]" * d + "\n",
     # (at most 220 lines: the installed py-tree-sitter corrupts memory for rows > 256, see DESIGN.md 9)
     "long-file": lambda d: "{\n" + "".join(f"  a{i} = {i};\n" for i in range(d * 12)) + "}\n",
 }
@@ -51,7 +63,7 @@ DOCUMENTED = ("ValueError", "NixSyntaxError")
 
 
 def _count_calls(text):
-    """Number of rebuild() invocations during parse(text).rebuild()."""
+    """Number of from_cst() and rebuild() invocations during parse(text).rebuild()."""
     import nix_manipulator.expressions as ex
     from nix_manipulator import parse
     from nix_manipulator.expressions.expression import NixExpression
@@ -66,6 +78,20 @@ def _count_calls(text):
             out |= all_subclasses(s)
         return out
 
+    # conversions from the CST count as work units too (a child converted twice doubles the parse time per nesting level)
+    fc_patched = []
+    for cls in all_subclasses(NixExpression) | {NixExpression}:
+        fc = cls.__dict__.get("from_cst")
+        if isinstance(fc, classmethod):
+            def make_fc(o):
+                def wrapper(c, *a, **k):
+                    counter[0] += 1
+                    return o(c, *a, **k)
+
+                return classmethod(wrapper)
+
+            fc_patched.append((cls, fc))
+            setattr(cls, "from_cst", make_fc(fc.__func__))
     for cls in all_subclasses(NixExpression) | {NixExpression}:
         if "rebuild" in cls.__dict__:
             orig = cls.__dict__["rebuild"]
@@ -85,6 +111,8 @@ def _count_calls(text):
     finally:
         for cls, orig in patched:
             setattr(cls, "rebuild", orig)
+        for cls, orig in fc_patched:
+            setattr(cls, "from_cst", orig)
     return counter[0]
 
 
@@ -216,7 +244,7 @@ def run(tier, seed):
         if err is None and c1 and c2 / c1 > 8.0:
             sig = f"superpolynomial-rebuild-calls|{name}"
             by_sig[sig] = dict(check="cost", signature=sig, has_input=True,
-                               what=f"C20 rebuild() invocations grow from {c1} (depth {d}) to {c2} (depth {2 * d}) on family {name}: ratio {c2 / c1:.1f} > 8",
+                               what=f"C20 from_cst() + rebuild() invocations grow from {c1} (depth {d}) to {c2} (depth {2 * d}) on family {name}: ratio {c2 / c1:.1f} > 8",
                                inputs={"family": name, "depth": d},
                                failing_input={"inputs": {"text": FAMILIES[name](2 * d)}, "observed": f"{c1} -> {c2} rebuild calls", "origin": "depth family"})
     return dict(evaluations=n + 2 * len(FAMILIES), distinct_nontrivial=len({p["text"] for p in progs}) + len(FAMILIES),
